@@ -67,6 +67,7 @@ REGEX_POOL = [
     "^[.]$", "^[.]+$", "^[a.]*$", "^[ab][cd]$", "^[a-z]+|[0-9]+$", "^(a|)$", "^(|a)$", "^()$", "^a||b$", "^a*+$", "^a**$", "^+$", "+", "*", "?", "^?$",
     "^[^\\n]+$", "^[^\\\\]+$", "^[\\\\]+$", "^\\x41$", "^[\\x41]+$", "^\\u0041$", "^\\t$", "^[\\t]+$", "^[\\n]+$", "^é+$", "^[é]+$", "^[а-я]+$",
     "^a{,3}$", "^a{0}$", "^a{0}*$", "^[a-z]+$\n", "^[]a]+$", "^[a-]+$", "^[-a]+$", "^[a-z-]+$", "^[a--]+$", "^[+--]+$", "^[^]a]$", "^[[]+$", "^[a[]+$",
+    "^[a-z]{,3}$", "[0-9]{,}", "^[a-z]{2,5}$", "^[a-z]{}$", "^[a-z]{ 2}$", "^[a-z]{2,1}$", "^[a-z]{a}$", "^[a-z]{2}{3}$", "^[a-z]{0}$", "^[a-z]{0,0}$", "^[a-z]{,}$",
     "^:$", "^a::=b$", "^a ::= b$", "^x\nroot ::= y$", "^=$", "^,$", "^{$", "^}$", "^\\{$", "^!$", "^<$", "^a/b$", "^~$", "^'a'$", "^`$",
 ]
 SCHEMA_NAMES = ["S", "SESSION_LOG", "lower", "MiXed", "ß", "ŉ", "a b", 'a"b', "a\\b", "a\nb", "a\rb", "", "#x", "x # y", "UNKNOWN", "Σ", "a\tb", "x y", "===", 'q\\"']
